@@ -124,6 +124,8 @@ def gen_case(rng):
             pos = sorted(rng.randrange(len(edits) + 1) for _ in theme)
             for off, (at, op) in enumerate(zip(pos, theme)):
                 edits.insert(at + off, op)
+        if rng.random() < 0.2:
+            edits = DL.readd_theme(rng, edits)  # a file added, deleted, added again with the same content
         cycles.append({"edits": edits, "how": rng.choice(["zip-path", "zip-io"]), "pretty": rng.random() < 0.3})
     return {"source": DL.gen_source(rng, allow_generated=True), "cycles": cycles}
 
